@@ -83,16 +83,17 @@ type runState struct {
 	obsSeq       []uint64   // per graph: first fired foreign receive on the goroutine that called Run
 	dfs          [][]string
 	dfsErr       []error
-	midHi, midLo []int  // largest / smallest limit a task set through SetMaxParallel while its graph was running (0: none)
-	dfsSkipped   []bool // no sequential DepthFirstSort before the run: the concurrent ones come first
-	innerRunning bool   // the inner graph's Run (Scenario.Inner) has been called and has not returned
-	again        bool   // the Run being judged is a repetition on an unchanged graph
-	lockProbe    string // the Task the post-run lock probe is waiting for ("" = not probing)
-	cancelSeq    uint64 // first cancel() issued
-	cancelSlp    []int  // per graph: sleeps the Run goroutine had started when cancel() was issued
-	retSlp       []int  // ... when Run returned
-	cancelPre    bool   // cancel() was issued before any Run was called
-	failSeq      uint64 // first final failure
+	curWriter    []*simWriter // the sink currently configured per graph
+	midHi, midLo []int        // largest / smallest limit a task set through SetMaxParallel while its graph was running (0: none)
+	dfsSkipped   []bool       // no sequential DepthFirstSort before the run: the concurrent ones come first
+	innerRunning bool         // the inner graph's Run (Scenario.Inner) has been called and has not returned
+	again        bool         // the Run being judged is a repetition on an unchanged graph
+	lockProbe    string       // the Task the post-run lock probe is waiting for ("" = not probing)
+	cancelSeq    uint64       // first cancel() issued
+	cancelSlp    []int        // per graph: sleeps the Run goroutine had started when cancel() was issued
+	retSlp       []int        // ... when Run returned
+	cancelPre    bool         // cancel() was issued before any Run was called
+	failSeq      uint64       // first final failure
 	writes       []bytes.Buffer
 	inWrite      []bool
 	nWrites      int
@@ -191,6 +192,9 @@ func (r *runState) checkable() bool {
 type simWriter struct {
 	r *runState
 	g int
+	// since: the Run (phase) before which this sink was installed with SetOutputBuffer; until: the
+	// last phase it is the configured sink of (0 = still configured)
+	since, until int
 }
 
 func (w *simWriter) Write(p []byte) (int, error) {
@@ -202,6 +206,9 @@ func (w *simWriter) Write(p []byte) (int, error) {
 	}
 	r.inWrite[w.g] = true
 	r.nWrites++
+	if w.until != 0 && r.phase > w.until {
+		r.fail("C15", "O15d", seq, "g%d: output written during Run #%d went to the writer that SetOutputBuffer had replaced before that Run: %.60q", w.g, r.phase, p)
+	}
 	total := len(p)
 	if r.sc.Writer.ErrFrom > 0 && r.nWrites >= r.sc.Writer.ErrFrom {
 		// the sink is gone (closed pipe): nothing is consumed, now and for ever
@@ -362,6 +369,7 @@ func Execute(sc *Scenario, ch simrt.Chooser, keepTrace bool) *Result {
 	r.dfsErr = make([]error, ng)
 	r.dfsSkipped = make([]bool, ng)
 	r.midHi, r.midLo = make([]int, ng), make([]int, ng)
+	r.curWriter = make([]*simWriter, ng)
 	r.writes = make([]bytes.Buffer, ng)
 	r.inWrite = make([]bool, ng)
 	for i := 0; i < n; i++ {
@@ -482,6 +490,11 @@ func (r *runState) taskFn(i, alt int, cancel context.CancelFunc) getoptions.Comm
 		R := m.Retries[i]
 
 		// ---- online oracles ----
+		// O14h: nobody cancelled anything and nothing has failed, yet the task is handed a context that is
+		// already done (a context-aware task would give up at once)
+		if cerr := ctx.Err(); cerr != nil && r.cancelSeq == 0 && r.failSeq == 0 && !sc.Cancel.Deadline {
+			r.fail("C14", "O14h", seq, "g%d t%02d attempt %d was handed a context that is already done (%v) although the caller's context was never cancelled and no task has failed", g, i, k+1, cerr)
+		}
 		if r.inFn[g][i] {
 			r.fail("C13", "O13c", seq, "g%d t%02d: attempt %d entered while attempt %d is still running", g, i, k+1, k)
 		}
@@ -746,7 +759,9 @@ func (r *runState) main() {
 			gr.SetSerial()
 		}
 		if sc.Buffer {
-			switch sw := (&simWriter{r, g}); sc.Writer.Locker {
+			sw := &simWriter{r: r, g: g, since: 1}
+			r.curWriter[g] = sw
+			switch sc.Writer.Locker {
 			case "mutex":
 				gr.SetOutputBuffer(&lockedWriter{simWriter: sw})
 			case "noop":
@@ -906,6 +921,16 @@ func (r *runState) main() {
 				r.returned[0] = false
 				simrt.Unlock()
 				applyCalls(graphs[0], 0, ph.Build)
+				if ph.NewWriter && sc.Buffer && r.curWriter[0] != nil {
+					// the program points the graph at another sink for the next Run
+					simrt.Lock()
+					r.curWriter[0].until = r.phase - 1
+					nw := &simWriter{r: r, g: 0, since: r.phase}
+					r.curWriter[0] = nw
+					r.res.Faults["output_writer_replaced_between_runs"]++
+					simrt.Unlock()
+					graphs[0].SetOutputBuffer(nw)
+				}
 				if ph.MaxPar > 0 {
 					graphs[0].SetMaxParallel(ph.MaxPar)
 					r.curMaxPar = ph.MaxPar
